@@ -43,7 +43,7 @@ func contractTags(fc *FuncContract) []string {
 
 func newExec(p *Prog, name string) *Exec {
 	e := &Exec{P: p, S: newScript(), name: name, notes: map[string]bool{}, unsup: map[string]bool{}, arrSort: map[string]string{},
-		callSeen: map[string]int{}, closures: map[string]closureInfo{}, usedLemmas: map[string]bool{}, measures: map[int]string{}, prov: map[string]string{}, specCache: map[string]Val{}, siteVars: map[string]Val{}, forallVars: map[string]Val{}, opaqueSig: map[string]string{}, specCache2: map[string][]specEntry{}, ldCache: map[string]string{}}
+		callSeen: map[string]int{}, closures: map[string]closureInfo{}, usedLemmas: map[string]bool{}, measures: map[int]string{}, prov: map[string]string{}, specCache: map[string]Val{}, siteVars: map[string]Val{}, forallVars: map[string]Val{}, unboundSites: map[string]bool{}, opaqueSig: map[string]string{}, specCache2: map[string][]specEntry{}, ldCache: map[string]string{}}
 	e.S.DeclareFun("typeof", []string{"Int"}, "Int")
 	e.S.Assert(sEq(sx("typeof", "0"), "0"))
 	e.S.Declare("A0", "Int")
@@ -119,6 +119,10 @@ func verifyFunc(p *Prog, fn *ssa.Function, fc *FuncContract, cover bool) (e *Exe
 		e.forallVars[q.Name] = e.freshVal("all_"+q.Name, t, k)
 	}
 	e.predeclareSiteWitnesses(st)
+	for _, site := range sortedKeys(e.unboundSites) {
+		o := e.obligeNoAssume(st, "site:"+site+":unbound", "pre", contractTags(fc), "false", "the contract refers to call site "+site+", which no longer exists in the function", fn.Pos())
+		o.Pos = posOf(p, fn.Pos())
+	}
 	fr.entry = st.clone()
 	env := e.funcEnv(fr, st)
 	if fc.Recv != nil && fc.Recv.Name == "self" && len(fr.params) > 0 && fr.params[0].K == KRef {
@@ -507,6 +511,9 @@ func (e *Exec) predeclareSiteWitnesses(st *State) {
 				}
 			}
 			if call == nil {
+				// the call site named by the contract no longer exists in the code
+				e.siteVars[w.Name] = vInt(e.S.Fresh("w_"+w.Name+"_unbound", "Int"))
+				e.unboundSites[fmt.Sprintf("%s#%d", sec.Callee, sec.N)] = true
 				continue
 			}
 			if g, isGhost := st.ghost[id.Name]; isGhost {
